@@ -96,8 +96,7 @@ func c04Expr(e *scopedExprGen, depth int, t ty) (string, bool) {
 			if vs := e.s.ofType(tMap); len(vs) > 0 {
 				i := vs[r.Intn(len(vs))]
 				e.s.used[i] = true
-				// (no null-safe access here: an int may get negated, and "-$m?.a" loses its minus — hand case c04:negated-nullsafe)
-				return "$" + e.s.vars[i].name + []string{".a", "['a']"}[r.Intn(2)], true
+				return "$" + e.s.vars[i].name + []string{".a", "?.a", "['a']", "?['a']"}[r.Intn(4)], true
 			}
 		}
 		return e.atom(tInt), true
